@@ -1157,8 +1157,17 @@ class GenericPlainRegistry(Generic[QuantityT, UnitT], metaclass=RegistryMeta):
         case_sensitive = (
             self.case_sensitive if case_sensitive is None else case_sensitive
         )
+        if case_sensitive:
+            return self._dedup_candidates(
+                self._yield_unit_triplets(unit_name, True)
+            )
+        # Case-insensitive lookup accepts further spellings: the readings in the
+        # case as given come first.
         return self._dedup_candidates(
-            self._yield_unit_triplets(unit_name, case_sensitive)
+            itertools.chain(
+                self._yield_unit_triplets(unit_name, True),
+                self._yield_unit_triplets(unit_name, False),
+            )
         )
 
     def _yield_unit_triplets(
